@@ -7,6 +7,7 @@ import (
 	"fmt"
 	"go/ast"
 	"go/parser"
+	"go/types"
 	"regexp"
 	"strconv"
 	"strings"
@@ -243,6 +244,47 @@ func (p *Prog) extraObligations(o checkOpts) (obs []*Obligation, notes []string,
 		}
 		obs = append(obs, preSolved("bounded.harness."+f[0], "bounded", fmt.Sprintf("%s:%d", shortSpec(r.File), r.Line), "BOUNDED stand-in (real code, exhaustive enumeration): "+desc+" ["+detail+"]", ok, detail, serves))
 		notes = append(notes, "bounded harness "+f[0]+": "+desc+" ["+detail+"]")
+	}
+	// lemmas about package-level tables of the repository: "tablelemma PKG NAME: EXPR"
+	for _, r := range p.spec.Raw["tablelemma"] {
+		text := r.Text
+		var serves []string
+		if k := strings.Index(text, " serves "); k >= 0 {
+			serves = strings.Fields(text[k+8:])
+			text = text[:k]
+		}
+		if !servesProp(serves, o.id) {
+			continue
+		}
+		f := strings.SplitN(strings.TrimSpace(text), " ", 2)
+		if len(f) != 2 {
+			errs = append(errs, fmt.Sprintf("%s:%d: tablelemma PKG NAME: EXPR expected", r.File, r.Line))
+			continue
+		}
+		pk := p.byPath[f[0]]
+		m := labelRe.FindStringSubmatch(f[1])
+		if pk == nil || m == nil {
+			errs = append(errs, fmt.Sprintf("%s:%d: bad tablelemma", r.File, r.Line))
+			continue
+		}
+		ex, err := parser.ParseExpr(rewriteImplies(m[2]))
+		if err != nil {
+			errs = append(errs, fmt.Sprintf("%s:%d: %v", r.File, r.Line, err))
+			continue
+		}
+		func() {
+			defer func() {
+				if rec := recover(); rec != nil {
+					// the table can no longer be extracted: the lemma is not discharged
+					obs = append(obs, &Obligation{Name: "tablelemma." + m[1], Kind: "lemma", Pos: fmt.Sprintf("%s:%d", shortSpec(r.File), r.Line), Desc: m[2] + fmt.Sprintf(" [table not extractable: %v]", rec), Expect: VUnsat, Script: "(check-sat)\n", Serves: serves})
+				}
+			}()
+			fx := &FuncCtx{prog: p, pkg: pk, counts: map[string]int{}, trusted: map[string]bool{}, langsUsed: map[string]bool{}, specUsed: map[string]bool{}}
+			ev := &Ev{fx: fx, st: &State{pc: "true", env: map[types.Object]Val{}}, contract: true, bound: map[string]Val{}, pkg: pk.Types}
+			goal := ev.boolOf(ev.ev(ex), ex)
+			script := p.header(fx.useSeq, fx.specUsed, fx.langsUsed, nil) + strings.Join(fx.lines, "\n") + "\n(assert (not " + goal + "))\n(check-sat)\n(get-model)\n"
+			obs = append(obs, &Obligation{Name: "tablelemma." + m[1], Kind: "lemma", Pos: fmt.Sprintf("%s:%d", shortSpec(r.File), r.Line), Desc: m[2], Expect: VUnsat, Script: script, Serves: serves})
+		}()
 	}
 	// stand-alone SMT lemmas over spec functions
 	for _, r := range p.spec.Raw["smtlemma"] {
